@@ -24,6 +24,7 @@ LEVEL = "exploration"
 HORIZON = 120
 _CONSTANT_FOLDER_MSG = re.compile(r"Value after \*\*? must be an? |^TypeError: ")
 MENU = ["(", ")", ":", ",", "=", "*", "not", "await", "yield", "lambda", "[", "."]
+CHARS = ["\x00", "\x0c", "\ufeff", "\r", "\\\n", "\t", "\x1a", "\u2028"]
 
 
 def analyse(src, horizon=HORIZON):
@@ -69,6 +70,8 @@ def analyse(src, horizon=HORIZON):
       bad = "CPython rejects the text (%s, line %s) but pytype reports %s" % (
           cerr.msg, cerr.lineno, [(n, l) for n, l, _ in errs])
       sig = "compile-error-count"
+    elif cerr.lineno is None:
+      pass   # CPython blames no line (e.g. a NUL byte): any line inside the file will do (checked below)
     elif ce[0][1] != cerr.lineno:
       bad = "CPython blames line %s (%s) but pytype's compiler error is on line %s" % (cerr.lineno, cerr.msg, ce[0][1])
       sig = "compile-error-line"
@@ -135,6 +138,10 @@ def mutants(src):
     s = pos(t.start)
     for m in MENU:
       out.append(("ins%s@%d" % (m, s), src[:s] + m + " " + src[s:]))
+  # raw characters a tokenizer treats specially, at the start, in the middle and at the end
+  for ch in CHARS:
+    for where in (0, len(src) // 2, len(src)):
+      out.append(("chr%r@%d" % (ch, where), src[:where] + ch + src[where:]))
   return out
 
 
